@@ -68,6 +68,26 @@ class Rule:
     def bad(self, site, loc, detail, config, path=None):
         return self._add("violation", site, loc, detail, config, path)
 
+    def unknown(self, site, loc, detail, config):
+        """the rule cannot be decided for this code shape (unknown idiom): neither a pass nor a violation"""
+        return self._add("unknown", site, loc, detail, config)
+
+    def guard(self, site, loc, config):
+        """context manager: an AnalysisBroken raised inside is recorded as an undecided instance of this rule,
+        so that other rules still report what they can decide"""
+        rule = self
+
+        class _G:
+            def __enter__(self_):
+                return self_
+
+            def __exit__(self_, et, ev, tb):
+                if et is not None and issubclass(et, AnalysisBroken):
+                    rule.unknown(site, loc, str(ev), config)
+                    return True
+                return False
+        return _G()
+
 
 class Check:
     def __init__(self, pid, title, tier):
@@ -108,6 +128,11 @@ def run_check(pid, title, body, argv=None, configs=("real", "complex")):
             fdir, info.get("cached"), info["lib_tus"], info.get("test_tus", 0), "/".join(info["configs"]), info["extract_s"]))
         rules_by_id = {}
         nfun = {}
+        if "complex" in configs and "complex" not in info["configs"]:
+            configs = tuple(c for c in configs if c != "complex")
+            msg = "the complex-matrix-element configuration does not compile (%s): only the pinned real configuration was analysed" % ", ".join(os.path.basename(x) for x in info.get("complex_failed", []))
+            chk.notes.append(msg)
+            print("  note: " + msg)
         for cfgname in configs:
             db = load_db(fdir, cfgname)
             nfun[cfgname] = len(db.fns)
@@ -142,8 +167,9 @@ def run_check(pid, title, body, argv=None, configs=("real", "complex")):
                 if n < r.expect:
                     shortfalls.append("rule %s (%s): %d instances in configuration %s, frozen minimum is %d" % (
                         r.rid, r.title, n, cfgname, r.expect))
-        anyviol = any(i["status"] != "ok" for r in chk.rules for i in r.instances)
-        if shortfalls and not anyviol:
+        anyviol = any(i["status"] == "violation" for r in chk.rules for i in r.instances)
+        anyunknown = any(i["status"] == "unknown" for r in chk.rules for i in r.instances)
+        if shortfalls and not anyviol and not anyunknown:
             raise AnalysisBroken(shortfalls[0])
         for sfl in shortfalls:
             print("  note: instance count below frozen minimum: " + sfl)
@@ -167,15 +193,19 @@ def run_check(pid, title, body, argv=None, configs=("real", "complex")):
     viol = {}
     total = 0
     okc = 0
+    unknowns = []
     for r in chk.rules:
         n_ok = sum(1 for i in r.instances if i["status"] == "ok")
-        n_bad = sum(1 for i in r.instances if i["status"] != "ok")
+        n_bad = sum(1 for i in r.instances if i["status"] == "violation")
+        for i in r.instances:
+            if i["status"] == "unknown":
+                unknowns.append(i)
         total += len(r.instances)
         okc += n_ok
         print("rule %-8s [%s] %-70s instances=%d ok=%d violations=%d (min/config %d)" % (
             r.rid, r.family, r.title[:70], len(r.instances), n_ok, n_bad, r.expect))
         for i in r.instances:
-            if i["status"] != "ok":
+            if i["status"] == "violation":
                 key = (i["rule"], i["site"])
                 viol.setdefault(key, []).append(i)
     nviol = 0
@@ -236,7 +266,7 @@ def run_check(pid, title, body, argv=None, configs=("real", "complex")):
             "rule": "one evaluation = one (rule, site, configuration) instance; distinct = distinct (rule, site); every instance is a resolved construct of the current tree, none is trivial",
             "samples": samples,
             "rules": [{"id": r.rid, "family": r.family, "title": r.title, "instances": len(r.instances),
-                       "violations": sum(1 for i in r.instances if i["status"] != "ok"), "frozen_min_per_config": r.expect} for r in chk.rules],
+                       "violations": sum(1 for i in r.instances if i["status"] == "violation"), "frozen_min_per_config": r.expect} for r in chk.rules],
             "functions_in_db": nfun,
             "translation_units": {"library": info["lib_tus"], "tests": info.get("test_tus", 0)},
             "configurations": list(configs),
@@ -254,5 +284,16 @@ def run_check(pid, title, body, argv=None, configs=("real", "complex")):
     os.makedirs(EVID, exist_ok=True)
     if "--no-evidence" not in argv:
         json.dump(ev, open(os.path.join(EVID, pid + ".json"), "w"), indent=1)
-    print("%s: %d instances, %d ok, %d violation sites, %d known findings, %.1fs" % (pid, total, okc, nviol, nknown, time.time() - t0))
-    sys.exit(1 if nviol else 0)
+    seenu = set()
+    for i in unknowns:
+        if (i["rule"], i["site"]) in seenu:
+            continue
+        seenu.add((i["rule"], i["site"]))
+        print("UNDECIDED property=%s rule=%s site=%s at %s: %s" % (pid, i["rule"], i["site"], i["loc"], i["detail"]))
+    print("%s: %d instances, %d ok, %d violation sites, %d known findings, %d undecided, %.1fs" % (pid, total, okc, nviol, nknown, len(seenu), time.time() - t0))
+    if nviol:
+        sys.exit(1)
+    if seenu:
+        print("ANALYSIS-BROKEN property=%s: %d rule instance(s) could not be decided (unknown idiom); no verdict" % (pid, len(seenu)))
+        sys.exit(2)
+    sys.exit(0)
